@@ -273,6 +273,23 @@ def _twice(x):
     return x * 2
 
 
+def _kind(x, lo):
+    if x is None:
+        return 'none'
+    if x < lo:
+        k = 'low'
+        d = lo - x
+    else:
+        k = 'high'
+        d = x - lo
+    tag = k + str(d)
+    return tag, d
+
+
+def g(x, lo):
+    return [_kind(x, lo), _kind(None, lo)]
+
+
 def f(s, limit):
     if s < 0:
         return 'neg'
@@ -326,6 +343,23 @@ def _inline_check() -> List[str]:
         b = _run(src_mod, new_src, inputs)
         if a != b:
             errs.append(f'inline: f differs {a} vs {b}')
+        # conditional locals of a helper used at expression level
+        from .inline import inline_pure_exprs
+        gfn = ix.func('gym_gridverse/m.py', 'g')
+        gex = inline_pure_exprs(ix, gfn.module, None, gfn.node)
+        gsrc = ast.unparse(gex)
+        if '_kind(' in gsrc:
+            errs.append('inline: conditional-local helper not inlined at expression level')
+        ginputs = [(1, 3), (5, 3), (3, 3)]
+        ns_a: Dict[str, Any] = {}
+        exec(compile(src_mod, '<snippet>', 'exec'), ns_a)
+        ns_b: Dict[str, Any] = {}
+        exec(compile(src_mod, '<snippet>', 'exec'), ns_b)
+        exec(compile(gsrc, '<normalised>', 'exec'), ns_b)
+        ga = [repr(ns_a['g'](*a_)) for a_ in ginputs]
+        gb = [repr(ns_b['g'](*a_)) for a_ in ginputs]
+        if ga != gb:
+            errs.append(f'inline: g differs {ga} vs {gb}')
         # method with a private helper
         m = ix.func('gym_gridverse/m.py', 'C.f')
         node, _, inl = view(ix, m)
@@ -387,7 +421,7 @@ def run() -> Dict[str, Any]:
                 errs.append(f'nnf({text}) differs at {env}')
                 break
     errs += _inline_check()
-    n += 2
+    n += 3
     return {'snippets': n, 'failures': errs}
 
 
